@@ -635,6 +635,35 @@ def handle (req : Json) : Except String Json := do
   | "syn.indextext" =>
     let v ← getStr req "v"
     pure (Json.mkObj [("shape", .bool (Lemmas.intShape v)), ("refused", .bool (Lemmas.indexTextRefused v)), ("rfc", .bool (Lemmas.rfcInt v))])
+  | "lex.compile" =>
+    -- the composed model of `compile(text)`: lexer, literal decoding, parser (each operand of a compound query)
+    let text ← getStr req "text"
+    let cfg ← decCfg req
+    match Lex.tokenize cfg text with
+    | .error .syntax => pure (Json.mkObj [("err", "syntax")])
+    | .error .outside => pure (Json.mkObj [("err", "outside")])
+    | .ok cs =>
+      -- split at the union / intersection tokens
+      let rec split (cur : List Surface.Tok) (acc : List (Option Bool × List Surface.Tok)) (op : Option Bool) : List Lex.CTok → List (Option Bool × List Surface.Tok)
+        | [] => ((op, cur.reverse) :: acc).reverse
+        | .tok t :: rest => split (t :: cur) acc op rest
+        | .union :: rest => split [] ((op, cur.reverse) :: acc) (some true) rest
+        | .inter :: rest => split [] ((op, cur.reverse) :: acc) (some false) rest
+      let groups := split [] [] none cs
+      let parsed : List (Option Bool × Option Path) := groups.map fun (op, ts) =>
+        (op, match Surface.parseQuery sfPrec ts with
+             | .ok p => some p
+             | .error _ => none)
+      let enc := fun (p : Path) => Json.mkObj [("segs", encSegs p.segs), ("fake", .bool p.fake)]
+      if parsed.all (fun x => x.2.isSome) then
+        match parsed with
+        | (_, some first) :: rest =>
+          pure (Json.mkObj [("ok", Json.mkObj [("first", enc first),
+            ("rest", .arr (rest.filterMap (fun x => match x.2 with
+              | some p => some (Json.arr #[.str (if x.1 == some true then "|" else "&"), enc p])
+              | none => none)).toArray)])])
+        | _ => pure (Json.mkObj [("err", "syntax")])
+      else pure (Json.mkObj [("err", "syntax")])
   | "lex.decode" =>
     let v ← getStr req "v"
     let q ← req.getObjValAs? String "q"
